@@ -8,22 +8,40 @@ ID = "C11"
 LEVEL = "proof"
 LEAN_IMPORTS = ["WM.Props.C11"]
 THEOREMS = ["WM.C11.sorted", "WM.C11.active_iff", "WM.C11.refine_next", "WM.C11.refine_skipTo", "WM.C11.skipTo_noop",
-            "WM.C11.reset", "WM.C11.wf_preserved", "WM.C11.constructors_wf", "WM.C11.replace0",
-            "WM.C11.all_ids_partial", "WM.C11.program"]
-PARTIAL = {"WM.C11.all_ids_partial": "proved for the base-class generator Matcher.all_ids (step + replace() every 10th step) "
-                                     "on every tree; the overriding all_ids of ListMatcher, IntersectionMatcher, "
-                                     "FilterMatcher and WrappingMatcher (undefined on non-fresh matchers) are not "
-                                     "modelled and are compared with stepping on the real code only"}
-RULE = ("matcher trees (depth <= 3) over ListMatchers and over real W3LeafMatchers written with "
-        "W3Codec(blocklimit 1..4); adaptive programs of <= 60 operations; non-trivial = the tree has a "
+            "WM.C11.reset", "WM.C11.wf_preserved", "WM.C11.constructors_wf", "WM.C11.multi_constructor_wf",
+            "WM.C11.aunion_constructor_wf",
+            "WM.C11.replace0", "WM.C11.all_ids_base", "WM.C11.all_ids", "WM.C11.all_ids_fresh",
+            "WM.C11.all_ids_pre_preserved", "WM.C11.program", "WM.C11.program_replace"]
+PARTIAL = {"WM.C11.all_ids": "the overriding all_ids() of ListMatcher, IntersectionMatcher (also behind RequireMatcher), "
+                             "WrappingMatcher/ConstantScoreWrapperMatcher, FilterMatcher, MultiMatcher are modelled (allIdsO) and "
+                             "proved to yield, in any state, an ascending list between the remaining and the complete ids, "
+                             "and exactly the stepping result on a matcher at its start (all_ids_fresh). Hypothesis AllIdsPre: at "
+                             "the sub-matchers that use the base generator (leaf, Union, DisjunctionMax, AndNot, AndMaybe, "
+                             "Inverse, and ArrayUnion whose all_ids walks its buffered parts) the remaining list is part of the complete list - preserved by next/skip_to/reset "
+                             "(all_ids_pre_preserved) but not proved through the alignment loops of an enclosing "
+                             "Intersection/Filter constructor; PreloadedUnion all_ids is modelled, not proved",
+           "WM.C11.program": "narrower than 'every matcher class, every read': (1) classes - Shape covers ListMatcher, W3 leaf, Null, "
+                             "Union, DisjunctionMax, Intersection, AndNot, AndMaybe, Require, boost, Filter, Inverse, ConstantScore, "
+                             "MultiMatcher (sub-matchers of one class) and ArrayUnionMatcher (sub-matchers of one class, positive "
+                             "scores); PreloadedUnionMatcher is modelled and differentially tested only; span matchers, "
+                             "SingleTermMatcher, CoordMatcher, nested-document matchers are not modelled; (2) reads - id() and "
+                             "score() (and is_active) are proved position-dependent only; weight(), value(), spans(), "
+                             "matching_terms() are not in the model's operation table and not compared by the harness; (3) commands - "
+                             "next/skip_to/reset here, next/skip_to/replace() in program_replace; skip_to_quality(0) and copy() are "
+                             "not commands of the path-independence theorems (copy is the identity on model values); (4) "
+                             "ListMatcher without weights (weights=None) and a W3 posting list with no block are outside WF"}
+RULE = ("matcher trees (depth <= 3, MultiMatcher nodes included) over ListMatchers and over real W3LeafMatchers written with "
+        "W3Codec(blocklimit 1..4), ArrayUnion/PreloadedUnion roots; adaptive programs of <= 60 operations; non-trivial = the tree has a "
         "composite node and the program contains a skip_to/skip_to_quality/replace that moved the matcher, "
         "or (error stream) an operation on an exhausted matcher; distinct = distinct (tree, program)")
 ASSUMPTIONS = ["Python float arithmetic on the dyadic weights/boosts used by the exact streams is exact",
+               "MultiMatcher: all sub-matchers of one class; its score() (global scorer on the current weight) equals the "
+               "current sub-matcher's score (WeightScorer/Frequency in the streams)",
                "UnionMatcher._id is a pure memo of id() (not modelled; a stale memo shows as a divergence)"]
 TRUSTED = ["the W3 block layout handed to the model is read from the real W3LeafMatcher (block statistics, "
            "float32 weights, field lengths); that the writer stores true aggregates is C10's claim"]
 
-KINDS_ALL = list(G.BIN) + list(G.UN)
+KINDS_ALL = list(G.BIN) + list(G.UN) + ["multi"]
 
 
 # ------------------------------------------------------------------------------------------------
@@ -35,12 +53,12 @@ def _case(args):
     rix = None
     try:
         if mode == "list":
-            t = G.gen_tree(rng, depth, kinds, G.gen_list)
+            t = G.gen_tree(rng, depth, kinds, G.gen_list, boosts=G.CORR_BOOSTS)
             scores = sorted(set(w for w in _leaf_weights(t)))
         else:
             spec = G.gen_index_spec(rng, 4, deleted=(rng.random() < 0.25))
             rix = G.RealIndex(spec)
-            t = G.gen_tree(rng, depth, kinds, _leaf_gen(mode, spec))
+            t = G.gen_tree(rng, depth, kinds, _leaf_gen(mode, spec), boosts=G.CORR_BOOSTS)
             scores = [float(f) for _, fs in spec.lists for f in fs] + _leaf_weights(t)
         text = G.tree_sexp(t, rix)
         try:
@@ -48,12 +66,59 @@ def _case(args):
         except Exception as e:  # noqa
             return dict(seed=seed, mode=mode, tree=text, ops=[], impl=["(%s)" % G.err_name(e)], kinds=sorted(G.tree_kinds(t)),
                         size=G.tree_size(t))
-        ops, out = G.run_program(rng, m, nops, scores, allow_copy=(mode == "list"), error_stream=error_stream, qbias=qbias)
+        ops, out = G.run_program(rng, m, nops, scores, allow_copy=True, error_stream=error_stream, qbias=qbias,
+                                 semantic=G.unit_boosts(t))
         return dict(seed=seed, mode=mode, tree=text, ops=[G.op_sexp(o) for o in ops], impl=out,
                     kinds=sorted(G.tree_kinds(t)), size=G.tree_size(t))
     finally:
         if rix is not None:
             rix.close()
+
+
+def _combo_case(seed):
+    """ArrayUnionMatcher / PreloadedUnionMatcher at the root, over ListMatchers or real posting lists"""
+    rng = random.Random(seed)
+    rix = None
+    try:
+        if rng.random() < 0.6:
+            t = G.gen_combo(rng)
+            mode = "list"
+        else:
+            spec = G.gen_index_spec(rng, 4)
+            rix = G.RealIndex(spec)
+            nonempty = [j for j, l in enumerate(spec.lists) if l[0]] or [0]
+            t = G.gen_combo(rng, lambda r: ("term", r.choice(nonempty)))
+            mode = "w3"
+        kids = t[4] if t[0] == "aunion" else t[3]
+        if any(G.tree_sexp(k, rix) == "(null)" for k in kids):
+            return None
+        text = G.tree_sexp(t, rix)
+        scores = [w * t[2] for k in kids for w in _leaf_weights(k)] or [1.0]
+        try:
+            m = G.build_real(t, rix)
+        except Exception as e:  # noqa
+            return dict(seed=seed, mode=mode, tree=text, ops=[], impl=["(%s)" % G.err_name(e)], kinds=[t[0]], size=2)
+        rewinds = t[0] == "aunion" and G.aunion_rewinds()
+        ops, out = G.run_program(rng, m, 30, scores, allow_copy=rewinds, allow_reset=rewinds, qbias=2,
+                                 maxid=G.NDOCS + 8)
+        return dict(seed=seed, mode=mode, tree=text, ops=[G.op_sexp(o) for o in ops], impl=out, kinds=[t[0]], size=2)
+    finally:
+        if rix is not None:
+            rix.close()
+
+
+def combo_correspondence(ctx, n):
+    rng = ctx.rng("corr:combo")
+    cases = [c for c in ctx.pmap(_combo_case, [rng.getrandbits(48) for _ in range(n)], chunksize=max(1, n // 64)) if c]
+    replies = ctx.driver.ask(["c11 run %s (%s)" % (c["tree"], " ".join(c["ops"])) for c in cases])
+    for c, rep in zip(cases, replies):
+        impl = "(" + " ".join(c["impl"]) + ")"
+        ctx.case((c["tree"], tuple(c["ops"])), nontrivial=_moved(c["impl"]))
+        ctx.stat("corr:combo:" + c["kinds"][0])
+        for o in c["ops"]:
+            ctx.stat("op:" + o.strip("(").split(" ")[0])
+        if rep != impl:
+            ctx.divergence("matcher-program:combo", {"tree": c["tree"], "ops": c["ops"], "seed": c["seed"]}, rep, impl)
 
 
 def _leaf_gen(mode, spec):
@@ -68,6 +133,8 @@ def _leaf_gen(mode, spec):
 def _leaf_weights(t):
     if t[0] == "list":
         return list(t[2])
+    if t[0] == "multi":
+        return [w for c in t[2] for w in _leaf_weights(c)]
     res = []
     for x in t[1:]:
         if isinstance(x, tuple) and x and isinstance(x[0], str):
@@ -319,6 +386,54 @@ def extra_stream(ctx, pid, n, quality):
                           "MultiMatcher/ArrayUnionMatcher contradicts the list model: " + res[0])
 
 
+# ArrayUnionMatcher against its Lean list model (`den` of the aunion node: boosted union below doccount)
+
+def _combo_e2e_tree(seed):
+    rng = random.Random(seed)
+    while True:
+        t = G.gen_combo(rng)
+        if t[0] == "aunion":
+            return t
+
+
+def _combo_e2e_prepare(seed):
+    return G.tree_sexp(_combo_e2e_tree(seed))
+
+
+def _combo_e2e_run(args):
+    seed, den_text, quality = args
+    t = _combo_e2e_tree(seed)
+    if den_text.startswith("!"):
+        return None
+    den = [(i, float(s)) for i, s in G.parse_den(den_text)]
+    rng = random.Random(seed ^ 0xA)
+    try:
+        if quality:
+            res = G.e2e_quality(rng, G.build_real(t), den)
+            res = None if res is None else (res[0], dict(res[1], ops=[G.op_sexp(o) for o in res[2]]))
+        else:
+            res = G.e2e_cursor(rng, lambda: G.build_real(t), den, allow_copy=True)
+    except G.Hang:
+        res = ("does not terminate", {})
+    except Exception as e:  # noqa
+        res = ("raises " + G.err_name(e), {})
+    return None if res is None else (res[0], dict(res[1], tree=repr(t)), t[0])
+
+
+def combo_e2e(ctx, pid, n, quality):
+    rng = ctx.rng("e2e:combo")
+    seeds = [rng.getrandbits(48) for _ in range(n)]
+    texts = ctx.pmap(_combo_e2e_prepare, seeds, chunksize=max(1, n // 64))
+    dens = ctx.driver.ask(["c11 den " + t for t in texts])
+    for s, text, d, res in zip(seeds, texts, dens, ctx.pmap(_combo_e2e_run, [(s, d, quality) for s, d in zip(seeds, dens)],
+                                                            chunksize=max(1, n // 64))):
+        ctx.case(("combo-e2e", s, quality), nontrivial=d not in ("()", ""))
+        ctx.stat("e2e:combo:cases")
+        if res is not None:
+            ctx.violation("%s:%s:%s" % (pid, res[0], res[2]), {"stream": "combo-e2e", "seed": s, "quality": quality, "tree": text},
+                          d, res[1], "ArrayUnionMatcher contradicts the list model: " + res[0])
+
+
 def run(ctx):
     corpus_replay(ctx, "C11")
     n = ctx.budget(3000, 36000)
@@ -327,14 +442,17 @@ def run(ctx):
     correspondence(ctx, "w3", "w3", n // 3, KINDS_ALL, 3, 40)
     correspondence(ctx, "mixed", "mixed", n // 3, KINDS_ALL, 3, 40)
     correspondence(ctx, "w3-errors", "w3", n // 10, KINDS_ALL, 2, 25, error_stream=True)
+    correspondence(ctx, "multi", "mixed", n // 6, ["multi", "multi", "multi", "union", "inter", "filter"], 2, 40)
+    combo_correspondence(ctx, n // 3)
     end_to_end(ctx, "list", "list", n // 2, KINDS_ALL, 3)
     end_to_end(ctx, "w3", "w3", n // 4, KINDS_ALL, 3)
     end_to_end(ctx, "mixed", "mixed", n // 4, KINDS_ALL, 3)
     extra_stream(ctx, "C11", n // 4, quality=False)
+    combo_e2e(ctx, "C11", n // 6, quality=False)
     if ctx.divergences:
         # a broken correspondence: spend more of the budget looking for a failing input
-        end_to_end(ctx, "list-extra", "list", n * 2, KINDS_ALL, 3)
-        end_to_end(ctx, "w3-extra", "w3", n, KINDS_ALL, 3)
+        end_to_end(ctx, "list-extra", "list", n // 2, KINDS_ALL, 3)
+        end_to_end(ctx, "w3-extra", "w3", n // 4, KINDS_ALL, 3)
     G.cleanup_tmp()
 
 
@@ -359,6 +477,9 @@ def replay_common(ctx, rec, quality):
                     if rep != "(" + " ".join(c["impl"]) + ")":
                         return ("model/implementation transcripts differ", {"model": rep, "impl": c["impl"]})
         return None
+    if stream == "combo-e2e":
+        text = _combo_e2e_prepare(case["seed"])
+        return _combo_e2e_run((case["seed"], ctx.driver.ask1("c11 den " + text), case.get("quality", quality)))
     if stream == "extra":
         texts = _extra_prepare(case["seed"])
         return _extra_run((case["seed"], ctx.driver.ask(["c11 den " + t for t in texts]), case.get("quality", quality)))
@@ -381,16 +502,30 @@ def replay(ctx, rec):
 
 MANIFEST = {
     "level_text": "Lean 4 theorems, unbounded (every tree shape over ListMatcher, W3 block leaf, Null, Union, DisjunctionMax, "
-                  "Intersection, AndNot, AndMaybe, Require, boost, Filter, Inverse, ConstantScore; every state, argument and "
-                  "program of next/skip_to/reset): the executable model of matching/mcore.py, binary.py, wrappers.py and "
-                  "W3LeafMatcher is a faithful cursor over the Layer-S result list (sorted, refine_next, refine_skipTo, "
-                  "skipTo_noop, reset, wf_preserved, constructors_wf, replace0, program = path independence; all_ids for the "
-                  "base-class generator). The model is tied to the code on every run by differential matcher programs "
-                  "(ListMatcher trees, real W3LeafMatchers with blocklimit 1-4, mixed; valid and error streams) and the real "
-                  "classes are run end-to-end against the Lean list model (stepping, all_ids, skip_to, copy, reset, replace(0)).",
-    "level_note": "Partial: all_ids overrides, MultiMatcher, ArrayUnion/PreloadedUnion, span and nested matchers are not in the "
-                  "Lean model (MultiMatcher and ArrayUnionMatcher are checked end-to-end only); copy() is the identity on "
-                  "model values, independence of copies is checked on the real objects; UnionMatcher._id memo not modelled. "
+                  "Intersection, AndNot, AndMaybe, Require, boost, Filter, Inverse, ConstantScore, MultiMatcher and "
+                  "ArrayUnionMatcher (positive scores and boost); every state, "
+                  "argument and program of next/skip_to/reset): the executable model of matching/mcore.py, binary.py, wrappers.py "
+                  "and W3LeafMatcher is a faithful cursor over the Layer-S result list (sorted, refine_next, refine_skipTo, "
+                  "skipTo_noop, reset, wf_preserved, constructors_wf, multi_constructor_wf, aunion_constructor_wf, replace0, program = path "
+                  "independence; all_ids: the base-class generator in every state, the overrides of ListMatcher, "
+                  "IntersectionMatcher, WrappingMatcher, FilterMatcher, MultiMatcher, ArrayUnionMatcher between the remaining and the complete ids "
+                  "and equal to stepping at the start). The model is tied to the code on every run by differential matcher "
+                  "programs (ListMatcher trees, real W3LeafMatchers with blocklimit 1-4, mixed; valid and error streams; "
+                  "next/skip_to/skip_to_quality/replace/reset/copy/all_ids; after a reshaping replace(q) the comparison goes on "
+                  "semantically on the entries above q) and the real classes are run end-to-end against the Lean list model "
+                  "(stepping, all_ids, skip_to, copy, reset, replace(0)). PreloadedUnionMatcher (matching/combo.py) has an "
+                  "executable Lean model compared by the same differential programs at the root of a tree; no theorems "
+                  "about it.",
+    "level_note": "Partial: all_ids carries the hypothesis AllIdsPre (see the theorem); PreloadedUnion is modelled and "
+                  "differentially tested but not proved; ArrayUnionMatcher: sub-matchers of one class, scored=True, positive "
+                  "scores and boost (otherwise the class drops documents), float accumulation not modelled; span and nested matchers and CoordMatcher are not in the Lean model "
+                  "(CoordMatcher is walked end-to-end in C12); MultiMatcher: sub-matchers of one class, score() = the current "
+                  "sub-matcher's score (global and per-segment scorer agree); copy() is the identity on model values, "
+                  "independence of copies is checked on the real objects; UnionMatcher._id memo not modelled; weight(), value(), "
+                  "spans(), matching_terms()/term_matchers() and the Boolean results of next()/skip_to() are neither modelled nor "
+                  "compared (compared after every operation: is_active, id, score, supports_block_quality, block_quality, "
+                  "max_quality; on request all_ids); path independence (program, program_replace) covers next/skip_to/reset and "
+                  "next/skip_to/replace() - skip_to_quality/replace(q) are not path independent by design (C12). "
                   "Trusted: Lean kernel and compiled driver, the hand-written model (sampled correspondence, not proved), "
                   "the W3 block layout as read back from the real reader.",
     "technique": "machine-checked proof in Lean 4 over an executable model + differential correspondence check against the implementation",
